@@ -37,6 +37,9 @@ TEMP_BASES = ['value', 'end', 'item', 'staging', 'checkpoint', 'backtrack', 'far
 BUILTINS = ['list', 'len', 'id', 'object', 'dict', 'tuple', 'isinstance', 'hash', 'reversed', 'enumerate', 'getattr', 'hasattr', 'repr',
             'max', 'set', 'bytes', 'str', 'int', 'slice', 'bool', 'super', 'staticmethod', 'TypeError']
 CONSTRUCTORS = ['Seq', 'List', 'Left', 'Right', 'Opt', 'Choice', 'Sep', 'Some', 'Skip', 'Str']
+# identifiers that BEGIN with a word of the grammar language
+KEYWORDISH = ['letter', 'let_it', 'Nonempty', 'Truest', 'Falsehood', 'whereabouts', 'classy', 'ignored_x', 'passing', 'requirement', 'inside',
+              'between2', 'leftmost', 'rightmost', 'infixed', 'prefixes', 'grammarian', 'extendsx', 'overrides1', 'startle', 'Startup']
 SCRATCH = ['title', 'line', 'col', 'excerpt', 'details', 'text', 'pos', 'fullparse', 'memo', 'stack', 'key', 'gtor', 'result', 'node', 'visited']
 
 
@@ -61,6 +64,9 @@ def renamings(rnd, keys_used, tier):
             out.append((f'runtime-scratch:{b}', {**PLAIN, k: b}))
         for b in BUILTINS:
             out.append((f'builtin-as-local:{b}', {**PLAIN, k: b}))
+    for k in locs + globs:
+        for b in KEYWORDISH:
+            out.append((f'keyword-prefixed:{b}', {**PLAIN, k: b}))
     for k in globs:
         for b in BUILTINS:
             out.append((f'builtin-as-rule:{b}', {**PLAIN, k: b}))
@@ -127,7 +133,7 @@ def run(R):
             fresh = [r for r in rens if r[0] == 'fresh']
             rest = [r for r in rens if r[0] != 'fresh']
             rnd.shuffle(rest)
-            keep = [r for r in rest if r[0].split(':')[0] in ('builtin-as-local', 'builtin-as-rule', 'constructor-name')]
+            keep = [r for r in rest if r[0].split(':')[0] in ('builtin-as-local', 'builtin-as-rule', 'constructor-name', 'keyword-prefixed')]
             other = [r for r in rest if r not in keep]
             rens = fresh + keep + other[:100]
         for label, names in rens:
